@@ -1258,6 +1258,17 @@ fn c07(tier: &str, seed: u64) -> Value {
         terms.push(T::Inter(vec![oa(T::Str), obj(vec![("b", false, T::Num)], None)]));
         terms.push(T::Inter(vec![obj(vec![], Some(T::Str)), obj(vec![("b", false, T::StrLit("b".into()))], None)]));
     }
+    // one structured type used as an optional and as a required member of one object, the optional one first and last in
+    // key order; next to an array of it and inside a recursive object (the materialisation memoises by semantic type)
+    {
+        let xs = [T::Union(vec![T::StrLit("a".into()), T::StrLit("b".into())]), T::Arr(Box::new(T::Num)), obj(vec![("a", false, T::Num)], None), T::Tup(vec![T::Num], None), T::Ref("List".into()), T::Ref("OList".into())];
+        for x in &xs {
+            terms.push(obj(vec![("a", true, x.clone()), ("b", false, x.clone())], None));
+            terms.push(obj(vec![("a", false, x.clone()), ("b", true, x.clone())], None));
+            terms.push(obj(vec![("a", true, x.clone()), ("b", false, T::Arr(Box::new(x.clone())))], None));
+            terms.push(T::Tup(vec![obj(vec![("a", true, x.clone())], None), x.clone()], None));
+        }
+    }
     if thorough {
         terms.extend(size2(seed).into_iter().step_by(3));
     } else {
@@ -1341,6 +1352,30 @@ fn c07(tier: &str, seed: u64) -> Value {
                 );
                 break;
             }
+        }
+        // the same comparison under the runtime's reading (a missing property is `undefined`): a required member whose
+        // materialised type admits `undefined` although the computed type admits neither is seen only here
+        if comparable {
+            LOOSE_ABSENT.with(|c| c.set(true));
+            for v in &w {
+                if matches!(v, SV::Absent) {
+                    continue;
+                }
+                let (m, r) = match (sem_mem(ctx, s, v, 40), runtype_mem(&defs_map, &head.schema, v, 60)) {
+                    (Ok(m), Ok(r)) => (m, r),
+                    _ => break,
+                };
+                evals += 1;
+                if m != r {
+                    out.violation(
+                        format!("C07 {}: materialised type denotes a different set when a missing property is read as undefined ({})", opname, if m { "loses" } else { "gains" }),
+                        format!("{}: {:?} is {} in the computed type and {} in the materialised type {:?}", label, v, m, r, head.schema),
+                        json!({"computed": label, "value": format!("{:?}", v), "materialised": format!("{:?}", head.schema)}),
+                    );
+                    break;
+                }
+            }
+            LOOSE_ABSENT.with(|c| c.set(false));
         }
         if comparable && row.iter().any(|b| *b) && row.iter().any(|b| !*b) {
             rows.insert(row);
